@@ -248,9 +248,27 @@ func replayC01(c *h.Ctx, cs h.Case) {
 func runC01(c *h.Ctx) {
 	eg := NewExecGen(c.Rand("c01"))
 	eg.G.C.Datetime = true
+	// numerals as strings, in spellings only some number parsers take
+	eg.DC.Strs = append(append([]string{}, eg.DC.Strs...), "010", "-0017", "08", "0x10", "1_000", "0b101", "0o17", "1e2", " 1", "1.50")
 	n := c.PerShard(c.N(4000000, 40000000))
 	for i := 0; i < n; i++ {
 		checkC01(c, eg.Next())
+		if i%24 == 13 {
+			// a condition whose operand is anchored at $ or at a variable but
+			// subscripted by a member of the current item: it looks the same
+			// for every item and is not
+			pre, cond, cdoc := crossRef(eg.R, false)
+			root := pre.Clone().Append(&gen.N{K: gen.KFilter, A: cond})
+			if eg.R.IntN(3) == 0 {
+				root.Append(&gen.N{K: gen.KKey, S: "b"})
+			}
+			txt := gen.Spell(&gen.Path{Lax: eg.R.IntN(2) == 0, Root: root}, nil)
+			if ec, err := CaseFrom(h.Case{Path: txt, Doc: cdoc, UseNum: eg.R.IntN(2) == 0, Vars: stdVars, Silent: eg.R.IntN(4) == 0}); err == nil {
+				checkC01(c, ec)
+			} else {
+				eg.Bad++
+			}
+		}
 		if i%24 == 7 {
 			// inside a filter: a nested filter or subscript followed by steps
 			// that mention @ again, on documents whose levels carry the same keys
